@@ -90,7 +90,9 @@ class Oracle:
         self.scans: list[dict] = []
         self.in_ask = False
         self.active = True
-        self.checked = {"npoints": 0, "cycle": 0, "loss_improvements": 0, "loss": 0, "loss_calls": 0}
+        self.checked = {"npoints": 0, "cycle": 0, "loss_improvements": 0, "loss": 0, "loss_calls": 0,
+                        "own_proposal": 0, "own_proposal_after_caller_tell_pending": 0}
+        self.caller_tp = [False] * n      # the caller reserved a point of its own in child i since child i was last served / told
         for r in recs:
             r.on_call = self.on_child_call
 
@@ -105,7 +107,10 @@ class Oracle:
             counts.append(int(c.npoints) + len(c.pending_points))
             eloss.append(W.child_loss(c, False))
             off = None
-            if self.kind != "lnd" and self.strategy == "loss_improvements":
+            if self.kind != "lnd":
+                # what the child itself proposes right now (point, improvement): under 'loss_improvements' for the
+                # arg-max clause, under every strategy for the clause "each point handed out is the child's own
+                # current proposal"
                 r.depth += 1
                 try:
                     pts, imps = r.base.ask(c, 1, tell_pending=False)
@@ -163,6 +168,7 @@ class Oracle:
                 continue
             pre = self.scans[k]
             st = self.strategy
+            reported = False
             if st == "npoints":
                 self.checked[st] += 1
                 if pre["counts"][i] != min(pre["counts"]):
@@ -193,6 +199,19 @@ class Oracle:
                     if bad:
                         sig = SIG_F2B if (self.f2b_present and any(self.stale_b_ask)) else "C15:improvement_strategy"
                         self.err(sig, "'loss_improvements' " + bad)
+                        reported = True
+            # every strategy: the point handed out for child i is what child i itself proposes at this moment, with
+            # the improvement it quotes at this moment (whatever the caller did to the child since the last ask)
+            own = pre["offers"][i]
+            if own is not None:
+                self.checked["own_proposal"] += 1
+                self.checked["own_proposal_after_caller_tell_pending"] += bool(self.caller_tp[i])
+                if not reported and (own[0] != hp or not feq(float(imp), own[1])):
+                    sig = SIG_F2B if (self.f2b_present and any(self.stale_b_ask)) else "C15:handed_out_not_current_proposal"
+                    self.err(sig, f"'{st}' returned ({i},{p!r},{imp}) but child {i} itself currently proposes {own}"
+                                  + (" (the caller reserved a point of its own in that child before)" if self.caller_tp[i] else ""))
+            if commit:
+                self.caller_tp[i] = False
             # the served child got a tell_pending
             if commit:
                 self.pend[i].add(hp)
@@ -212,9 +231,11 @@ class Oracle:
         self.tick += 1
         self.tell_time[i][hp] = self.tick
         self.stale_a[i] = self.stale_b[i] = self.stale_b_ask[i] = False
+        self.caller_tp[i] = False
 
     def on_tell_pending(self, i, p):
         self.pend[i].add(W.hashable(self.kind, p))
+        self.caller_tp[i] = True
         self.stale_a[i] = True
         self.stale_b_ask[i] = False
 
@@ -223,6 +244,7 @@ class Oracle:
         self.tainted = [False] * self.n
         self.stale_b = [True] * self.n
         self.stale_b_ask = [True] * self.n
+        self.caller_tp = [False] * self.n
 
     def on_strategy(self, st):
         self.strategy = st
@@ -452,6 +474,39 @@ def gen_history(rng, maxlen, nc_tail=False):
     return h
 
 
+def gen_reserve_history(rng, nchild, strategy):
+    """Histories around points the CALLER reserves: a warm-up that gives every child results (finite losses and
+    improvements), then rounds of  ask -> [a few results] -> tell_pending((i, x)) with caller-chosen x for one or more
+    children (no result for those children in between) -> ask, under every strategy, 'loss_improvements' most often
+    (the strategy whose asks leave proposals of the children that were not served behind)."""
+    h = []
+    if strategy != "npoints":
+        h.append(("strategy", "npoints"))          # the warm-up spreads its points evenly
+    k = nchild * rng.choice([2, 2, 3])
+    h.append(("ask", k, True))
+    h += [("tell", "outstanding", False)] * k
+    st = strategy if rng.random() < 0.5 else rng.choice(["loss_improvements", "loss_improvements"] + STRATS)
+    if st != "npoints":
+        h.append(("strategy", st))
+    for _ in range(rng.randint(1, 4)):
+        f = rng.random()
+        if f < 0.75:
+            h.append(("ask", rng.choice([1, 1, 2, 3]), True))
+        elif f < 0.85:
+            h.append(("ask", rng.choice([1, 2]), False))
+        for _ in range(rng.choice([0, 0, 1, 2])):
+            h.append(("tell", "outstanding", True))
+        for _ in range(rng.randint(1, nchild)):
+            h.append(("tell_pending",))
+        g = rng.random()
+        if g < 0.12:
+            h.append(("loss", rng.random() < 0.4))
+        elif g < 0.24:
+            h.append(("strategy", rng.choice(STRATS)))
+        h.append(("ask", rng.choice([1, 2, nchild, nchild + 1]), rng.random() < 0.8))
+    return h
+
+
 # ----------------------------------------------------------------------
 def ipt(i, p):
     return C.pair(C.nat(i), W.pt_term(p))
@@ -618,7 +673,11 @@ def run(chk: Check) -> int:
                 "npseed": rng.randrange(10 ** 6), "koff": rng.randrange(8),
                 "size": rng.choice([2, 3, 5, 8]) if (kind == "seq" and rng.random() < 0.35) else 60}
         ml = maxlen if kind != "lnd" else min(maxlen, 22)
-        res = drive(spec, gen_history(rng, ml), rng)
+        if kind != "lnd" and rng.random() < 0.25:
+            hist = gen_reserve_history(rng, spec["nchild"], spec["strategy"])
+        else:
+            hist = gen_history(rng, ml)
+        res = drive(spec, hist, rng)
         add(spec, res, f"seed{chk.seed}/{k}")
         if len(cases) >= 1500:
             flush(f"cases{k}")
@@ -652,7 +711,8 @@ def run(chk: Check) -> int:
     return chk.finish(
         rule="histories generated by driving the real BalancingLearner over 1-5 real children of one kind (Learner1D, AverageLearner, "
              "SequenceLearner, LearnerND): committing and tentative (tell_pending=False) asks of 0-4 points under all four strategies with switches, out-of-order and unsolicited tells, "
-             "tell_pending, loss(real) for both flags, remove_unfinished; non-trivial = >=2 children, an ask of >=2 points, an out-of-order "
+             "tell_pending of caller-chosen points (a quarter of the non-LearnerND histories: warm-up with results for every child, then rounds ask / "
+             "caller's tell_pending in one or more children / ask), loss(real) for both flags, remove_unfinished; non-trivial = >=2 children, an ask of >=2 points, an out-of-order "
              "tell and (a strategy switch or a loss call); distinct by (children, strategy, op list)",
         assumptions=["hand-written model Model/Balancing.v tied to the code by the sampled correspondence only",
                      "children enter the model run as recorded oracle tables (Run/OracleChild.v): only the wrapper's logic is compared",
